@@ -19,7 +19,13 @@ RULE = ("TLC enumerates every valid ScenarioID field combination of cooperative 
         "single-vehicle solution ids, cooperative lists with at most one triple outside 5 representatives, plus "
         "seeded random ids (any ISO-3166 alpha-3 code of the library's table, map names of 1..24 alphanumerics "
         "including all-digit / 'C' / country-like names, numbers up to 2^31-1, prediction lists of 1..6, both format "
-        "versions) and random solutions of 1..5 vehicles. distinct_nontrivial = distinct executed cases that are "
+        "versions) and random solutions of 1..5 vehicles. History dimension: for every id of the scope, SetField "
+        "assigns one public field (cooperative, country_id, map_name, map_id, configuration_id, obstacle_behavior, "
+        "prediction_id, scenario_version) another value of the scope where the result is a valid id (checked on the "
+        "spec from the ids of one map x {ZAM,DEU}: 4.9k transitions, thorough: from all ids, 78k; the 4.9k and seeded "
+        "random ones are executed: "
+        "construct, print once via str() resp. Solution.benchmark_id, assign, then print / parse / compare / "
+        "write+read a solution again). distinct_nontrivial = distinct executed cases that are "
         "not a plain map id (scenario ids) resp. distinct solution cases.")
 ASSUMPTIONS = [
     "texts are compared as token sequences; the tokeniser (maximal alphanumeric runs classified as num / up3 / word, "
@@ -31,6 +37,9 @@ ASSUMPTIONS = [
     "solution documents are written by CommonRoadSolutionWriter with one minimal state per trajectory and read back by "
     "CommonRoadSolutionReader.fromstring (route 'reader'); the same id is also parsed with _parse_benchmark_id / "
     "_parse_vehicle_id (route 'direct') so that a failure of the trajectory reader does not hide the id parser",
+    "assignments use the value the field has in a second id built through the constructor (so the constructor's "
+    "normal form of that value), one field per case, and only where the resulting object is a valid id with nothing "
+    "left to default; a raw one-element list assigned to prediction_id is not driven",
     "expected tokens / fields are computed by TLC from BenchmarkId.tla (PrintId, Normalize, PrintSol), never in Python",
 ]
 
@@ -262,6 +271,89 @@ def _exec_sol(case):
     return ev
 
 
+# ---------------------------------------------------------------- history: print, assign one field, print again
+_ATTR = {"coop": "cooperative", "country": "country_id", "map": "map_name", "map_id": "map_id",
+         "config": "configuration_id", "beh": "obstacle_behavior", "pred": "prediction_id", "ver": "scenario_version"}
+
+
+def _exec_set(case):
+    from commonroad.common.solution import (CommonRoadSolutionReader, CommonRoadSolutionWriter, CostFunction,
+                                            PlanningProblemSolution, Solution, VehicleModel, VehicleType)
+    from commonroad.scenario.scenario import ScenarioID
+    f, pk, fld, b, bpk = case["f"], case["pk"], case["fld"], case["b"], case["bpk"]
+    attr = _ATTR[fld]
+    hist = {"f": f, "pk": pk, "fld": fld, "b": b, "bpk": bpk}
+    sig = "scenario_id/after-set:" + fld
+    ev = []
+    # (1) the id object itself: print once, assign, print / parse / compare again
+    try:
+        sid = _mk_id(f, pk)
+        other = _mk_id(b, bpk)
+    except Exception as ex:
+        ev.append({"op": "construct", "sig": id_sig(f, pk), "f": f, "pk": pk, "res": _exc(ex)})
+        return ev
+    try:
+        str(sid)                                            # first print
+        setattr(sid, attr, getattr(other, attr))
+        ev.append(dict(hist, op="set", sig=sig, res="ok"))
+    except Exception as ex:
+        ev.append(dict(hist, op="set", sig=sig, res=_exc(ex)))
+        return ev
+    toks, back = None, None
+    try:
+        text = str(sid)
+        toks = tokens(text)
+        ev.append(dict(hist, op="print", sig=sig, toks=toks, res="ok"))
+    except Exception as ex:
+        ev.append(dict(hist, op="print", sig=sig, toks=[], res=_exc(ex)))
+    if toks is not None:
+        try:
+            back = ScenarioID.from_benchmark_id(text, sid.scenario_version)
+            ev.append(dict(hist, op="parse", sig=sig, toks=toks, pf=_fields(back), ppk=_pk_of(back), res="ok"))
+        except Exception as ex:
+            ev.append(dict(hist, op="parse", sig=sig, toks=toks, pf=_NOF, ppk="none", res=_exc(ex)))
+    if back is not None:
+        try:
+            ev.append({"op": "eq", "sig": sig, "f": f, "pk": pk, "ppk": _pk_of(back), "eq_op": _eq(sid, back),
+                       "eq_po": _eq(back, sid), "res": "ok"})
+        except Exception as ex:
+            ev.append({"op": "eq", "sig": sig, "f": f, "pk": pk, "ppk": "none", "eq_op": 0, "eq_po": 0,
+                       "res": _exc(ex)})
+        try:
+            ev.append({"op": "reprint", "sig": sig, "toks": toks, "retoks": tokens(str(back)), "res": "ok"})
+        except Exception as ex:
+            ev.append({"op": "reprint", "sig": sig, "toks": toks, "retoks": [], "res": _exc(ex)})
+    # (2) the same through a solution: benchmark id printed once, scenario id edited in place, printed / written / read
+    ssig = "solution/after-set:" + fld
+    vs, cs = [{"m": "PM", "t": 2}], ["WX1"]
+    shist = dict(hist, vs=vs, cs=cs)
+    try:
+        sid2 = _mk_id(f, pk)
+        sol = Solution(sid2, [PlanningProblemSolution(1, VehicleModel.PM, VehicleType(2), CostFunction.WX1, _traj("PM"))])
+        sol.benchmark_id                                    # first print
+        setattr(sid2, attr, getattr(other, attr))
+    except Exception as ex:
+        ev.append(dict(hist, op="set", sig=ssig, res=_exc(ex)))
+        return ev
+    try:
+        stoks = tokens(sol.benchmark_id)
+        ev.append(dict(shist, op="sol_print", sig=ssig, toks=stoks, res="ok"))
+    except Exception as ex:
+        ev.append(dict(shist, op="sol_print", sig=ssig, toks=[], res=_exc(ex)))
+        return ev
+    e = dict(shist, op="sol_parse", route="reader", field="scenario_id", sig=ssig, got_vs=[], got_cs=[], got_f=_NOF,
+             got_ver="", eq_op=0, eq_po=0, res="ok")
+    try:
+        rb = CommonRoadSolutionReader.fromstring(CommonRoadSolutionWriter(sol).dump())
+        gvs, gcs, gid = _sol_fields(rb)
+        e.update(got_vs=gvs, got_cs=gcs, got_f=_fields(gid), got_ver=str(gid.scenario_version),
+                 eq_op=_eq(sol.scenario_id, gid), eq_po=_eq(gid, sol.scenario_id))
+    except Exception as ex:
+        e.update(field="all", res=_exc(ex))
+    ev.append(e)
+    return ev
+
+
 # ---------------------------------------------------------------- driver interface
 def model_check(ctx):
     ctx.mc("MC_BenchmarkId", "MC_BenchmarkId3.cfg" if ctx.thorough else "MC_BenchmarkId.cfg", coverage=True,
@@ -300,6 +392,32 @@ def _rand_triple(rng):
     return {"m": m, "t": rng.randint(1, 4), "c": rng.choice(["JB1", "WX1", "MW1"] if m == "PM" else _COSTS)}
 
 
+def _norm(f):
+    """Input generation only (the trace spec re-checks every set case with ValidSet): the constructor's normal form."""
+    g = dict(f)
+    if f["beh"] != "None":
+        g["config"] = f["config"] or [1]
+        g["pred"] = f["pred"] or [1]
+    return g
+
+
+def _rand_set(rng, countries):
+    while True:
+        f, pk = _rand_fields(rng, countries)
+        g, _ = _rand_fields(rng, countries)
+        fld = rng.choice(sorted(_ATTR))
+        b = _norm(f)
+        b[fld] = _norm(g)[fld]
+        if b[fld] == _norm(f)[fld]:
+            continue
+        if b["beh"] == "None" and b["pred"]:
+            continue
+        if b["beh"] != "None" and not (b["config"] and b["pred"]):
+            continue
+        bpk = "none" if not b["pred"] else rng.choice(["int", "list"]) if len(b["pred"]) == 1 else "list"
+        return {"kind": "set", "pk": pk, "f": f, "fld": fld, "b": b, "bpk": bpk, "src": "random"}
+
+
 def cases(ctx):
     cs = ctx.gen("MC_BenchmarkId", "GEN_BenchmarkId3.cfg" if ctx.thorough else "GEN_BenchmarkId.cfg")
     for c in cs:
@@ -314,12 +432,15 @@ def cases(ctx):
         f, pk = _rand_fields(rng, countries)
         n = rng.choice([1, 1, 2, 2, 3, 4, 5])
         cs.append({"kind": "sol", "pk": pk, "f": f, "vs": [_rand_triple(rng) for _ in range(n)], "src": "random"})
+    for _ in range(5000 if ctx.thorough else 600):
+        cs.append(_rand_set(rng, countries))
     return cs
 
 
 def execute(case):
     use_repo()
-    return {"ev": _exec_id(case) if case["kind"] == "id" else _exec_sol(case)}
+    k = case["kind"]
+    return {"ev": _exec_id(case) if k == "id" else _exec_set(case) if k == "set" else _exec_sol(case)}
 
 
 def _fkey(f):
@@ -333,6 +454,8 @@ def nontrivial(case):
         if f["beh"] == "None" and not f["config"]:
             return None
         return ("id", case["pk"]) + _fkey(f)
+    if case["kind"] == "set":
+        return ("set", case["pk"], case["fld"], case["bpk"]) + _fkey(f) + _fkey(case["b"])
     return ("sol", case["pk"], tuple((x["m"], x["t"], x["c"]) for x in case["vs"])) + _fkey(f)
 
 
